@@ -224,6 +224,12 @@ func stepAlg(t *rapid.T, p protocol.Protocol) uint {
 func genUpdatePatches(t *rapid.T, cur map[string]interface{}) ([]interface{}, bool) {
 	var out []interface{}
 	overlap := false
+	if rapid.IntRange(0, 5).Draw(t, "replaceFirst") == 0 {
+		// an update may start over: replace discards the whole document (also-known-as and every other member included)
+		out = append(out, map[string]interface{}{"action": "replace", "document": map[string]interface{}{
+			"publicKeys": []interface{}{genDocKey(t, "k-replaced", true)}, "services": []interface{}{genDocService(t, "s-replaced")}}})
+		return out, false
+	}
 	rmIDs := genIDsNear(t, idsOf(cur["publicKey"]), 0, 2, "rmKey")
 	if len(rmIDs) > 0 {
 		out = append(out, map[string]interface{}{"action": "remove-public-keys", "ids": toIfaceList(rmIDs)})
